@@ -198,6 +198,11 @@ func property(t *rapid.T, mode string, sink func([]byte)) {
 		if twoMappings {
 			cwd, _ := os.Getwd()
 			slog.AddKnownPathMapping(filepath.Dir(cwd), "~up")
+			if home, err := os.UserHomeDir(); err == nil && !strings.HasPrefix(cwd, home) && rapid.Bool().Draw(t, "tableOfExactlyTheTwo") {
+				// the table holds nothing but the two mappings the file lies under (what a program whose project is below
+				// $HOME starts with): a table that small must be walked in the same order as a large one
+				slog.RemoveKnownPathMapping(home)
+			}
 		}
 
 		log := vlib.NewEventLog()
